@@ -5,10 +5,11 @@ import (
 	"github.com/theparanoids/ysshra/verifharness/lib/ev"
 	"github.com/theparanoids/ysshra/verifharness/lib/gen"
 	sh "github.com/theparanoids/ysshra/verifharness/lib/shimhist"
+	"time"
 )
 
 func main() {
-	ev.Main("C09", "exploration", func(r *ev.Run) {
+	ev.MainIsolated("C09", "exploration", 60*time.Minute, func(r *ev.Run) {
 		r.Rule("the same seeded history generator is run with no-upstream mode on and off (alternating), over underlying agents preloaded before the shim is built and fed later (through the shim and directly), with certificates whose KeyID is a valid YSSHCA KeyID of every type (touch, touchless, firefighter, in-agent, nonce, headless, unknown-type, regular), a near-miss (missing field, version 0/2, conflicting flags, wrong-case field) or free text / empty; List->Signers and Signers->List orders arise from the seeded op mix; every listing, signature and removal is compared with the model, whose hidden set is computed by the harness's own reference YSSHCA predicate. Plus `arrivals`: another client adds a YSSHCA certificate just before every identity listing the underlying agent answers (hence also between the listings of one shim operation). distinct_nontrivial = distinct histories in which at least one upstream YSSHCA certificate was present at a listing in no-upstream mode, or (mode off) at least one YSSHCA certificate had to be listed")
 		r.Assume("reference predicate for 'decodes as a YSSHCA KeyID': JSON object with all 11 required fields, version 1, consistent flags (independent re-implementation)")
 		gen.Pool()
